@@ -143,7 +143,7 @@ func minInt(a, b int) int {
 func ZZ_C14_H2() {
 	firstChunked := zz.Choose("firstChunked", 2) == 1
 	secondChunked := zz.Choose("secondChunked", 2) == 1
-	nread := zz.Range("firstReads", 0, 2)
+	nread := zz.Range("firstReads", 0, 3) // 3 reads of one byte run into the end of the truncated upload
 	var w1 []byte
 	if firstChunked {
 		w1 = []byte("POST /u HTTP/1.1\r\nHost: h\r\nTransfer-Encoding: chunked\r\n\r\n5\r\nab") // cut inside the chunk
@@ -158,11 +158,20 @@ func ZZ_C14_H2() {
 	} else {
 		w2 = append([]byte("POST /v HTTP/1.1\r\nHost: h\r\nContent-Length: 3\r\n\r\n"), body...)
 	}
+	if secondChunked {
+		// the healthy second connection stays usable (with a fixed-length second body this
+		// prefetch limit is the region of the known finding C14-prefetch-swallows-pipelined, so
+		// nothing is pipelined behind it)
+		w2 = append(w2, zzSentinel...)
+	}
 	var got2 []byte
 	eof2 := false
 	calls := 0
 	core := zzNewCore(func(c context.Context, ctx *app.RequestContext) {
 		calls++
+		if string(ctx.Request.RequestURI()) == "/s" {
+			return
+		}
 		r := ctx.RequestBodyStream()
 		if string(ctx.Request.RequestURI()) == "/u" {
 			for i := 0; i < nread; i++ {
@@ -191,8 +200,11 @@ func ZZ_C14_H2() {
 	_ = s.Serve(context.Background(), standard.ZZNewConn(zz.NewNetConn(w1)))
 	_ = s.Serve(context.Background(), standard.ZZNewConn(zz.NewNetConn(w2)))
 	zz.Cover("reached-assert", true)
-	zz.Cover("both-handled", calls == 2)
-	zz.Assert("second-request-handled", calls == 2)
+	zz.Cover("both-handled", calls >= 2)
+	zz.Assert("second-request-handled", calls >= 2)
+	if secondChunked {
+		zz.Assert("healthy-connection-kept-after-the-second-request", calls == 3)
+	}
 	zz.Assert("second-body-exact", bytes.Equal(got2, body))
 	zz.Assert("second-body-ends-with-eof", eof2)
 }
